@@ -206,12 +206,15 @@ CONFIG = {
                  "(must wait, then count only for a later Send); oracle = per-slot delivery, Send return == receipts, return+absorbed == registered at start, "
                  "enabledness at quiescence, Add return values; (free) free-running programs in a bubble: 1-5 receivers x 1-4 rounds that give up after a drawn "
                  "number of yields, 1-3 racing senders, per-message count + conservation oracle, bubble deadlock = hang; (misuse) sequential Add/Send with deltas "
-                 "from the whole int range: out-of-range / unbalanced Adds must panic and every later call must panic. "
+                 "from the whole int range: out-of-range / unbalanced Adds must panic and every later call must panic; (buffered) channels with capacity >= registered receivers: rounds of "
+                 "register / deregister / 1-3 racing Sends, returns add up to the registrations, every copy accounted for, count zero afterwards; the free engine ends with a barrier-synchronised "
+                 "race lane (Send vs deregistration of the only receiver, up to 150 rounds with drawn spin offsets). "
                  "non-trivial = step: a Send with >=2 registered and an absorbed deregistration or a deferred registration; free: >=2 senders and >=1 deregistration; "
                  "misuse: a range panic followed by >=2 further calls; distinct = hash of the case."),
         "jobs": [
             {"name": "caster_step", "test": "TestC08CasterStep", "steps": 40, "checks": {"quick": 16000, "thorough": 400000}, "shards": {"quick": 8, "thorough": 16}},
             {"name": "caster_free", "test": "TestC08CasterFree", "checks": {"quick": 16000, "thorough": 800000}, "shards": {"quick": 4, "thorough": 16}, "stall_sig": "C08/stall"},
+            {"name": "caster_buffered", "test": "TestC08CasterBuffered", "checks": {"quick": 16000, "thorough": 600000}, "shards": {"quick": 2, "thorough": 8}},
             {"name": "caster_misuse", "test": "TestC08CasterMisuse", "checks": {"quick": 30000, "thorough": 1000000}, "shards": {"quick": 2, "thorough": 8}},
         ],
     },
